@@ -97,6 +97,19 @@ func buildArch1(dir string, names []string, prot map[string][]byte, nvols int, b
 	}
 	index := filepath.Join(dir, base+".par")
 	sandbox.WriteFile(filepath.Join(dir, "bystander.txt"), []byte("bystander"))
+	// bystanders whose names are derived from the names Create reads and writes: Create must leave them alone
+	derived := []string{base + ".par.tmp", base + ".par~", base + ".par.bak", base + ".p01.tmp", base + ".tmp"}
+	if len(names) > 0 {
+		derived = append(derived, names[0]+".tmp", names[0]+"~", names[len(names)-1]+".bak")
+	}
+	for _, dn := range derived {
+		sandbox.WriteFile(filepath.Join(dir, dn), []byte("derived-name bystander "+dn))
+	}
+	defer func() {
+		for _, dn := range derived {
+			os.Remove(filepath.Join(dir, dn))
+		}
+	}()
 	snapBefore, _ := sandbox.Take(dir)
 	if err := par1.Create(index, paths, par1.CreateOptions{NumParityFiles: nvols}); err != nil {
 		return nil, fmt.Errorf("par1.Create: %v", err)
